@@ -110,7 +110,11 @@ func valueFromWire(tag proto.Type, arch byte, data []byte) (proto.Value, bool) {
 		start := 0
 		for i, c := range data {
 			if c == 0 {
-				ss = append(ss, string(data[start:i+1]))
+				el := string(data[start : i+1])
+				if el == "\x00" && len(data) > 1 {
+					el = "" // a truly empty Go string between others: sized and marshalled as its terminator alone
+				}
+				ss = append(ss, el)
 				start = i + 1
 			}
 		}
